@@ -340,3 +340,66 @@ def _inner_optionness(t):
     if body.startswith("?"):
         body = body[1:]
     return [i for i, ch in enumerate(body.replace(" ", "")) if ch == "?"].__len__()
+
+
+# ------------------------------------------------------------------ C17 (types: printer bound to TypesForms.tla, parser round trip)
+def _has_typestr(t):
+    if t.get("ts"):
+        return True
+    return any(_has_typestr(x) for x in ([t["x"]] if "x" in t else []) + list(t.get("xs", [])))
+
+
+def _tree_to_ext(t):
+    p = {k: v for k, v in t.get("ps", [])}
+    if t["k"] == "rec" and t.get("nm"):
+        p["__record__"] = json.dumps(t["nm"])
+    d = {"p": p}
+    if t.get("ts"):
+        d["typestr"] = t["ts"]
+    k = t["k"]
+    if k == "prim":
+        d.update(c="PrimitiveType", dtype=t["dt"])
+    elif k == "unknown":
+        d.update(c="UnknownType")
+    elif k == "list":
+        d.update(c="ListType", x=_tree_to_ext(t["x"]))
+    elif k == "reg":
+        d.update(c="RegularType", x=_tree_to_ext(t["x"]), size=t["n"])
+    elif k == "opt":
+        d.update(c="OptionType", x=_tree_to_ext(t["x"]))
+    elif k == "union":
+        d.update(c="UnionType", xs=[_tree_to_ext(x) for x in t["xs"]])
+    elif k == "rec":
+        d.update(c="RecordType", xs=[_tree_to_ext(x) for x in t["xs"]])
+        if not t["tup"]:
+            d["keys"] = list(t["keys"])[:len(t["xs"])]
+    return d
+
+
+def h_c17_types(case, pick, st, stats):
+    ak, ext = st["ak"], st["ext"]
+    tree = case["tree"]
+    typ = ext._type_from(_tree_to_ext(tree))
+    printed = str(typ)
+    if printed != case["str"]:
+        return "Type::tostring prints %r, the specification (TypesForms!TStr) says %r" % (printed, case["str"])
+    if _has_typestr(tree):
+        stats["unspec"] += 1          # a custom typestr is free text: nothing promises that it can be parsed back
+        return None
+    # what a user sees and re-parses is the high-level type of an array: "<length> * <type>"
+    full = ext.ArrayType(typ, 3)
+    printed_full = str(full)
+    if printed_full != "3 * " + printed:
+        return "ArrayType prints %r, expected %r" % (printed_full, "3 * " + printed)
+    try:
+        back = ak.types.from_datashape(printed_full, True)
+    except Exception as e:
+        return "the printed type %r cannot be parsed back: %s: %s" % (printed_full, type(e).__name__, str(e)[:160])
+    if not isinstance(back, ext.ArrayType):
+        return "from_datashape(%r) returned %r, not an ArrayType" % (printed_full, type(back).__name__)
+    again = str(back)
+    if again != printed_full:
+        return "type changed by printing and re-parsing: %r -> %r" % (printed_full, again)
+    if not (back.type == typ) or back.length != 3:
+        return "re-parsed type prints the same (%r) but is not equal to the original" % (printed_full,)
+    return None
